@@ -79,6 +79,9 @@ type Run struct {
 
 	start time.Time
 	seq   uint64
+	// NoBubble harnesses own the clock: Now()/Ev() use vnow (set with SetNow), never the real clock
+	noBubble bool
+	vnow     time.Duration
 
 	// decision source
 	yieldRng   *Rand
@@ -161,15 +164,23 @@ func (x *Run) Rand(stream uint64) *Rand {
 }
 
 // Now is virtual time since the start of the run.
-func (x *Run) Now() time.Duration { return time.Since(x.start) }
+func (x *Run) Now() time.Duration {
+	if x.noBubble {
+		return x.vnow
+	}
+	return time.Since(x.start)
+}
+
+// SetNow sets the virtual clock of a NoBubble run (ignored inside a bubble).
+func (x *Run) SetNow(d time.Duration) { x.vnow = d }
 
 // Ev appends to the event log (hash always; text only when tracing).
 func (x *Run) Ev(format string, args ...any) {
 	x.seq++
 	s := fmt.Sprintf(format, args...)
-	x.evHash = fnv(fnv64(x.evHash, uint64(time.Since(x.start))), s)
+	x.evHash = fnv(fnv64(x.evHash, uint64(x.Now())), s)
 	if x.Trace {
-		x.Events = append(x.Events, fmt.Sprintf("%6d %12.6f %s", x.seq, time.Since(x.start).Seconds(), s))
+		x.Events = append(x.Events, fmt.Sprintf("%6d %12.6f %s", x.seq, x.Now().Seconds(), s))
 	}
 }
 
@@ -196,12 +207,12 @@ func (x *Run) Mix(s string) { x.fp = fnv(x.fp, s) }
 func (x *Run) Violate(class string, format string, args ...any) {
 	msg := fmt.Sprintf(format, args...)
 	if x.Trace {
-		x.Events = append(x.Events, fmt.Sprintf("%6d %12.6f !! VIOLATION %s: %s", x.seq, time.Since(x.start).Seconds(), class, msg))
+		x.Events = append(x.Events, fmt.Sprintf("%6d %12.6f !! VIOLATION %s: %s", x.seq, x.Now().Seconds(), class, msg))
 	}
 	if x.Viol != nil {
 		return
 	}
-	x.Viol = &Violation{Class: class, Msg: msg, Seq: x.seq, AtNs: int64(time.Since(x.start))}
+	x.Viol = &Violation{Class: class, Msg: msg, Seq: x.seq, AtNs: int64(x.Now())}
 }
 
 // Violated reports whether a violation has been recorded.
@@ -263,7 +274,7 @@ func Yield(site string) {
 	switch act {
 	case 1:
 		if x.Trace {
-			x.Events = append(x.Events, fmt.Sprintf("       %12.6f resched at %s (yield #%d)", time.Since(x.start).Seconds(), site, idx))
+			x.Events = append(x.Events, fmt.Sprintf("       %12.6f resched at %s (yield #%d)", x.Now().Seconds(), site, idx))
 		}
 		runtime.Gosched()
 	case 2:
@@ -275,7 +286,7 @@ func Yield(site string) {
 			x.lastStall = end
 		}
 		if x.Trace {
-			x.Events = append(x.Events, fmt.Sprintf("       %12.6f stall %v at %s (yield #%d)", time.Since(x.start).Seconds(), time.Duration(d), site, idx))
+			x.Events = append(x.Events, fmt.Sprintf("       %12.6f stall %v at %s (yield #%d)", x.Now().Seconds(), time.Duration(d), site, idx))
 		}
 		time.Sleep(time.Duration(d))
 	}
@@ -305,7 +316,7 @@ func (x *Run) YieldsOn()  { x.yieldOff = false }
 // evaluated only when this exceeds the bound being checked.
 func (x *Run) SinceLastStall() time.Duration {
 	if x.lastStall.IsZero() {
-		return time.Since(x.start)
+		return x.Now()
 	}
 	return time.Since(x.lastStall)
 }
